@@ -145,6 +145,39 @@ def simple_flow(ctx, of, i, pdict):
   return m
 
 
+def h_insert(ctx, n):
+  """FlowTable.add_entry alone: n entries with symbolic priorities, each exact-match or wildcarded (solver-chosen), inserted one after the other:
+  after every insertion the table holds exactly the inserted entries, once each, in descending effective priority (exact entries first)."""
+  of = ctx.pox('pox.openflow.libopenflow_01')
+  ft = ctx.pox('pox.openflow.flow_table')
+  addrs = ctx.pox('pox.lib.addresses')
+  And = ctx.And
+  t = ft.FlowTable()
+  entries = []
+  for i in range(n):
+    m = of.ofp_match()
+    exact = bool(ctx.bool('exact%d' % i))
+    if exact:
+      m.in_port = i + 1; m.dl_src = addrs.EthAddr(bytes([2, 0, 0, 0, 0, i])); m.dl_dst = addrs.EthAddr(bytes([2, 0, 0, 0, 1, i]))
+      m.dl_vlan = 0xffff; m.dl_vlan_pcp = 0; m.dl_type = 0x0800; m.nw_tos = 0; m.nw_proto = 6
+      m.nw_src = addrs.IPAddr('10.0.0.%d' % (i + 1)); m.nw_dst = addrs.IPAddr('10.0.1.%d' % (i + 1)); m.tp_src = 1000 + i; m.tp_dst = 80
+      ctx.witness('exact')
+    else:
+      m.in_port = i + 1
+    prio = ctx.int('prio%d' % i, 0, 0xffff)
+    e = ft.TableEntry(priority=prio, match=m, now=0)
+    ref = ctx.Ite(exact, 0x10001, prio) if False else (0x10001 if exact else prio)
+    ctx.check('effective priority of entry %d' % i, e.effective_priority == ref)
+    t.add_entry(e)
+    entries.append((e, ref))
+    srt = True
+    for a, b in zip(t._table, t._table[1:]): srt = And(srt, a.effective_priority >= b.effective_priority)
+    ctx.check('sorted by descending effective priority after insert %d' % i, srt)
+    ctx.check('table holds exactly the inserted entries after insert %d' % i,
+              len(t._table) == i + 1 and all(sum(1 for x in t._table if x is e0) == 1 for e0, _ in entries))
+  ctx.witness('done')
+
+
 def h_lookup(ctx, n):
   of = ctx.pox('pox.openflow.libopenflow_01')
   ft = ctx.pox('pox.openflow.flow_table')
@@ -305,6 +338,8 @@ def obligations(tier):
     Obligation('O2_extract', h_extract, [dict(kind=k, tagged=t) for k in ('ip', 'arp', 'other') for t in (False, True)] + [dict(kind='llc', tagged=False), dict(kind='snap', tagged=False)],
                witnesses=('extracted', 'fragment', 'ports', 'icmp', 'snap-oui0'), max_decisions=20000,
                desc='from_packet field extraction vs byte-offset extractor: VLAN tag, ARP, ICMP type/code, fragments (MF or offset) zero the ports'),
+    Obligation('O3_insert', h_insert, [dict(n=k) for k in ((3, 4, 5) if not thorough else (3, 4, 5, 6, 7))], witnesses=('done', 'exact'), max_decisions=20000,
+               desc='add_entry binary insertion: table sorted by descending effective priority and complete after every one of n insertions (symbolic priorities, exact/wildcarded)'),
     Obligation('O3_lookup', h_lookup, [dict(n=k) for k in range(1, (3 if thorough else 2) + 1)], witnesses=('hit', 'miss'),
                desc='table sorted after every add_entry; lookup returns a matching entry of maximal effective priority; miss iff none'),
     Obligation('O3_lookup_frame', h_lookup_real, [dict(n=1)] + ([dict(n=2)] if thorough else []), witnesses=('hit',),
